@@ -4,44 +4,10 @@
    All fuel-indexed syntactic functions are only meaningful when their fuel covers
    the nesting depth of the statement: [fitsb k s]. *)
 From Coq Require Import List Arith Bool Lia.
-From Verif Require Import Base Syntax Sem SemLemmas Rewrite.
+From Verif Require Import Base Syntax Sem SemLemmas Rewrite Side.
 Import ListNotations.
 
 Set Implicit Arguments.
-
-Definition simple (o : option stmt) : bool :=
-  match o with None => true | Some (SAtom _) | Some (SYield _) => true | _ => false end.
-
-(* Go rejects a fallthrough in the last clause of a switch *)
-Definition no_final_fallthrough (cs : list (clabel * list stmt)) : bool :=
-  match last (map Some cs) None with
-  | Some (_, b) => match last (map Some b) None with Some SFallthrough => false | _ => true end
-  | None => true
-  end.
-
-(* nesting depth below k, init/post statements simple *)
-Fixpoint fitsb (k : nat) (s : stmt) {struct k} : bool :=
-  match k with 0 => false | S k =>
-    match s with
-    | SBlock b => forallb (fitsb k) b
-    | SIf i _ t e => simple i && forallb (fitsb k) t &&
-                     match e with ENone => true | EElse b => forallb (fitsb k) b | EElif x => fitsb k x end
-    | SSwitch i _ cs => simple i && forallb (fun lb => forallb (fitsb k) (snd lb)) cs
-    | SFor i _ p b => simple i && simple p && forallb (fitsb k) b
-    | SRet e =>
-        (fix fx (m : nat) (e : sexp) {struct m} : bool :=
-           match m with 0 => false | S m =>
-             let ft := fun (t : thunk) => match t with TLit l => forallb (fitsb k) l | TSig _ => true end in
-             match e with
-             | XBind _ t | XDelay t => ft t
-             | XCombine a b => fx m a && fx m b
-             | XFor _ p body => simple p && fx m body
-             | _ => true
-             end
-           end) k e
-    | _ => true
-    end
-  end.
 
 Section T.
   Variables U V P : Type.
